@@ -1,6 +1,18 @@
 """Per-property manifest entries. Only properties with a working check appear in CHECKS."""
 
 CHECKS = {
+    "C03": {
+        "level": "exploration",
+        "technique": "hypothesis-generated control-structure programs; reference interpreter with lexically managed loop object, native execution of embedded Python",
+        "text": ("Programs of nested control lines (if/elif/else, for/else, while, try/except, with), <% %> blocks at random "
+                 "margins, randomly indented % lines, continued control lines, empty and comment-only bodies, defs, anonymous "
+                 "blocks, break/continue/return and handled exceptions are rendered by mako and by an independent reference "
+                 "interpreter that walks the same IR with explicit buffers and environments; outputs or exception types must "
+                 "agree and the generated module must compile; x enable_loop on / off / page override. Sampled search "
+                 "(~2k programs quick, ~64k thorough), depth <=5."),
+        "note": ("Trusted: the reference interpreter vf/gen/tgen.py (clauses A1-A15 of DESIGN appendix A) and CPython eval/exec. "
+                 "Not generated: % finally, loop reads inside nested callables or for-else, bare return in defs."),
+    },
     "C02": {
         "level": "exploration",
         "technique": "exhaustive pipeline enumeration + hypothesis expression spellings; reference composition with tagging (non-commuting) filters, native eval",
